@@ -359,11 +359,11 @@ OPT_TRANSFORM = r'Option<transform::Transform>'
 # property -> list of (function, callee regex, which occurrence (index or None = all), what, allowed fields, allowed call/type regexes)
 MANDATORY = {
     'C02': [
-        ('dedupe::partition', r'::retain$', 0, 'the regular-file filter', (), ()),
-        ('dedupe::partition', r'::retain$', 1, 'the length filter', ('no_check_size',), ()),
+        ('dedupe::partition', r'::retain$|Iterator::filter$', 0, 'the regular-file filter', (), ()),
+        ('dedupe::partition', r'::retain$|Iterator::filter$', 1, 'the length filter', ('no_check_size',), ()),
         ('dedupe::partition', r'dedupe::was_modified$', 0, 'the modification check', ('modified_before',), ()),
-        ('dedupe::partition', r'FileSubGroup.*::group$', 0, 'sub-grouping', (), (r'dedupe::was_modified$',)),
-        ('dedupe::partition', r'Iterator>::count$|Iterator::count$', 0, 'the top-up of the retained set (its loop condition)', (), (r'dedupe::was_modified$', r'::is_empty$')),
+        ('dedupe::partition', r'FileSubGroup.*::group$', 0, 'sub-grouping', ('modified_before',), (r'dedupe::was_modified$',)),
+        ('dedupe::partition', r'Iterator>::count$|Iterator::count$', 0, 'the top-up of the retained set (its loop condition)', ('modified_before',), (r'dedupe::was_modified$', r'::is_empty$')),
         ('dedupe::dedupe::{closure#0}', r'dedupe::fetch_files_metadata$', 0, 'fetching the metadata of every member', (), ()),
         ('dedupe::dedupe::{closure#0}', r'dedupe::partition$', 0, 'partition() of every group whose metadata could be read', (), (r'dedupe::fetch_files_metadata$', ITER_NEXT)),
     ],
